@@ -618,6 +618,12 @@ func vfC17Scenarios(thorough bool) []*vfGWScenario {
 	mk("promises-slow-validation", []string{"ihave:a:t:m1", "ihave:d:t:m1", "pub:a:m1", "pub:b:m1", "vrel:V:m1:A", "vrel:V:m1:I", "hb", "adv:2100", "adv:900"})
 	out[len(out)-1].Cfg.Validators = []vfValCfg{{Name: "V", Topic: "t", Gated: true, Verdict: "A"}}
 	out[len(out)-1].Depth = d + 1
+	// a heartbeat that grafts opportunistically (every tick, two peers) while there is something to gossip about: who
+	// is a mesh member -- and therefore gets no IHAVE -- is decided by the whole of the heartbeat's mesh maintenance
+	out = append(out, &vfGWScenario{Name: "gossip-oppgraft", Cfg: vfGWCfg{Router: "gossip", Peers: peers, Topics: []string{"t"}, Params: "d4og", Scoring: true, SeenTTL: 3600,
+		Prefix: []string{"conn:a", "conn:b", "conn:c", "conn:d", "conn:e", "sub:a:t", "sub:b:t", "sub:c:t", "join:t", "sub:d:t", "sub:e:t", "score:a:0.3", "score:b:0.2", "score:c:0.1"}},
+		Alphabet: []string{"pub:b:m1", "pub:c:m2", "lpub:t:p1", "hb", "score:d:0.7", "score:d:0", "score:a:0.9", "prune:a:t"}, Msgs: msgs, Depth: d,
+		DevKinds: []string{"strings", "pick", "peers"}, DevEvents: []string{"hb"}, DevMax: 3})
 	return out
 }
 
